@@ -1344,6 +1344,34 @@ static void wreplay_observe(void)
 			w_eq(first, second);
 	}
 }
+/* get hold of an existing child of container a (a borrowed reference the client then owns); returns its id or 0 */
+static int w_borrow_child(int a)
+{
+	json_object *o = node[a];
+	int k = 0, i = 0, found = 0;
+	if (json_object_get_type(o) == json_type_object && json_object_object_length(o) > 0)
+	{
+		int j = (int)vh_below((uint32_t)json_object_object_length(o)), n = 0;
+		json_object_object_foreach(o, key, val)
+		{
+			(void)val;
+			if (n++ == j && key[0] == 'k')
+			{
+				k = atoi(key + 1);
+				found = 1;
+			}
+		}
+	}
+	else if (json_object_get_type(o) == json_type_array && json_object_array_length(o) > 0)
+	{
+		i = (int)vh_below((uint32_t)json_object_array_length(o));
+		found = 1;
+	}
+	if (!found)
+		return 0;
+	op_borrow(a, k, i);
+	return C.b > 0 ? C.b : 0;
+}
 static void world_op(void)
 {
 	int a, b;
@@ -1355,10 +1383,25 @@ static void world_op(void)
 	}
 	else if (r < 37)
 	{
-		if ((a = pick_held_leaf()))
+		if (vh_below(2) && (a = pick_held_leaf()))
 			w_set(a);
 		else if ((a = pick_held(3)))
-			op_borrow(a, 1 + (int)vh_below(4), (int)vh_below(4)); /* (get hold of a leaf inside a container) */
+		{
+			/* a leaf inside a container (a parsed tree, a copy, ...): walk down a few levels, set it, let go of it again */
+			int got[4], ng = 0, cur = a;
+			while (ng < 3 && (b = w_borrow_child(cur)) > 0)
+			{
+				got[ng++] = b;
+				if (w_type_of(node[b]) >= 0)
+					break;
+				cur = b;
+			}
+			if (ng && w_type_of(node[got[ng - 1]]) >= 0)
+				w_set(got[ng - 1]);
+			while (ng > 0)
+				if (held[got[--ng]] > 1 || vh_below(3))
+					op_put(got[ng]);
+		}
 	}
 	else if (r < 47)
 	{
@@ -1390,10 +1433,37 @@ static void world_op(void)
 		if ((a = pick_held(2)))
 			w_asort(a);
 	}
-	else
+	else if (r < 93)
 	{
 		if ((a = pick_held(vh_below(3) ? 3 : 0)))
 			w_parse(a);
+	}
+	else
+	{
+		/* copy a tree, change a leaf inside the copy, look at both: the two are independent and each prints what it holds */
+		if ((a = pick_held(3)) && nlive() < 150 && unfolded_size(node[a], 0) <= 40)
+		{
+			op_copy(a, 0);
+			int c = C.ret == 0 && C.nnew > 0 ? (int)C.newids[0] : 0;
+			if (!c)
+				return;
+			int got[4], ng = 0, cur = c;
+			while (ng < 3 && (b = w_borrow_child(cur)) > 0)
+			{
+				got[ng++] = b;
+				if (w_type_of(node[b]) >= 0)
+					break;
+				cur = b;
+			}
+			if (ng && w_type_of(node[got[ng - 1]]) >= 0)
+				w_set(got[ng - 1]);
+			w_obs(c);
+			w_ser(c);
+			w_obs(a);
+			w_eq(a, c);
+			while (ng > 0)
+				op_put(got[--ng]);
+		}
 	}
 }
 static int drive(int start, int nexec, int nops)
